@@ -1,5 +1,5 @@
-(* P19b stage 3 - incremental builds, part 1: vocabulary.  Restrictions of this development (stage 3a): no rule has discovered
-   dependencies or single-use requests, no database is attached, the rule table is fixed, no earlier build was cancelled. *)
+(* P19b stage 3 - incremental builds, part 1: vocabulary.  Restrictions of this development: no rule has discovered
+   dependencies, no database is attached, the rule table is fixed, no earlier build was cancelled. *)
 From LLB Require Import Engine.Rules Engine.Spec Engine.SpecInv1 Engine.Impl Engine.ImplProofs Engine.ImplProofsSticky Engine.ImplProofsInv
   Engine.ImplProofsInv2 Engine.ImplVal1.
 From Coq Require Import Arith Lia.
@@ -39,7 +39,7 @@ Notation key_of_slot := (key_of_slot rules env F rank).
 
 (* ---------- rows: what a stored result says (the row_ok of SpecInv1 without single-use and discovered dependencies) ---------- *)
 Definition fresh (s : istate) (k : key) : Prop :=
-  forall d, In d (deps s k) -> d_order d = false -> cAt s (d_key d) <= bAt s k.
+  forall d, In d (deps s k) -> d_order d = false -> d_single d = false -> cAt s (d_key d) <= bAt s k.
 Definition concl (s : istate) (k : key) (v : value) : Prop :=
   let rl := rules k in
   let sl := map (stored s) (r_req rl) in
@@ -48,7 +48,7 @@ Definition concl (s : istate) (k : key) (v : value) : Prop :=
   forall x, In x (r_req rl ++ bk) -> In (mkDep x false false) (deps s k).
 Definition rowok (s : istate) (k : key) : Prop :=
   exists v, stored s k = Some v /\ (r_obs (rules k) = false -> snd v = 0) /\
-            (forall d, In d (deps s k) -> In (d_key d) (requestable (rules k)) /\ d_single d = false) /\
+            (forall d, In d (deps s k) -> In (d_key d) (requestable (rules k))) /\
             (fresh s k -> concl s k v).
 
 (* ---------- tasks ---------- *)
@@ -61,11 +61,11 @@ Record task_ok2 (s : istate) (t : key) (ti : tinfo) : Prop := {
   k2_pend : forall v, ti_pending ti = Some v -> Some v = cvK t;
   k2_fin : In t (is_fintasks s) -> stored s t = cvK t;
   (* the dependency of every request that has been looked at is recorded *)
-  k2_rec : forall i x, (i < length (ti_slots ti))%nat -> key_of_slot t i = Some x ->
+  k2_rec : forall i x, used rules t i -> (i < length (ti_slots ti))%nat -> key_of_slot t i = Some x ->
              (exists rq, Unrouted s rq /\ iq_task rq = Some t /\ iq_order rq = false /\ iq_slot rq = i) \/ In (mkDep x false false) (deps s t);
   (* a recorded dependency is complete, or its request is still outstanding *)
   k2_dcur : forall d, In d (deps s t) -> curk s (d_key d) \/ exists rq, Oreq2 s rq /\ iq_task rq = Some t /\ iq_input rq = d_key d;
-  k2_dmen : forall d, In d (deps s t) -> In (d_key d) (requestable (rules t)) /\ d_single d = false;
+  k2_dmen : forall d, In d (deps s t) -> In (d_key d) (requestable (rules t));
   k2_nodisc : ti_disc ti = [];
   k2_fsig : In t (is_fintasks s) -> res_sig (res_of s t) = r_sig (rules t)
 }.
@@ -75,7 +75,8 @@ Record BT (root : key) (s : istate) : Prop := {
   b_udb : is_usedb s = false;
   b_ep : is_epoch s <> 0;
   b_cur : forall k, curk s k -> stored s k = cvK k;
-  b_req : forall rq, Oreq2 s rq -> rq_wf rules env F rank s rq /\ iq_single rq = false;
+  b_req : forall rq, Oreq2 s rq -> rq_wf rules env F rank s rq /\
+            (forall t, iq_task rq = Some t -> iq_order rq = false -> used rules t (iq_slot rq) -> iq_single rq = false);
   b_fin : forall rq, In rq (is_fininreq s) -> curk s (iq_input rq);
   b_task : forall t ti, task_of s t = Some ti -> task_ok2 s t ti;
   b_root : In (dummy_root root) (is_inreq s) \/ (exists k, In (dummy_root root) (ri_paused (rinfo_of s k))) \/ is_in_progress s root = true \/ curk s root
@@ -88,8 +89,7 @@ Record BC (s : istate) : Prop := {
   b_be : forall k, bAt s k = is_epoch s -> kind_of s k = KComplete;
   b_sig : forall k, bAt s k <> 0 -> res_sig (res_of s k) = r_sig (rules k);
   b_rows : forall k, idle s k -> bAt s k <> 0 -> rowok s k;
-  b_closed : forall k, curk s k -> forall d, In d (deps s k) -> curk s (d_key d);
-  b_ns : forall k d, In d (deps s k) -> d_single d = false
+  b_closed : forall k, curk s k -> forall d, In d (deps s k) -> curk s (d_key d)
 }.
 (* scanning.  [x]: a rule whose scan has just begun and whose requester has not yet been entered into its scan record *)
 Record BS (x : option key) (s : istate) : Prop := {
@@ -113,8 +113,7 @@ Record HInv (s : istate) : Prop := {
   h_dn : forall k, kind_of s k <> KDoesNotNeedToRun;
   h_bnd : forall k, cAt s k <= bAt s k /\ bAt s k <= is_epoch s;
   h_sig : forall k, bAt s k <> 0 -> res_sig (res_of s k) = r_sig (rules k);
-  h_rows : forall k, bAt s k <> 0 -> rowok s k;
-  h_ns : forall k d, In d (deps s k) -> d_single d = false
+  h_rows : forall k, bAt s k <> 0 -> rowok s k
 }.
 End Inc.
 
